@@ -4,7 +4,9 @@
 // instrumented mock members and nested chains) bound to one local and one
 // remote stream, a sequence of application RTP writes / RTP reads / RTCP reads
 // / RTCP writes against a scripted transport (error injection at chosen
-// positions), then Unbind + Close.  Observables are projected to compact Coq
+// positions), then a teardown history (UnbindLocalStream / UnbindRemoteStream /
+// Close in the order the case prescribes, counters of the instrumented members
+// snapshotted after every call).  Observables are projected to compact Coq
 // terms (packet contents interned per case by exact byte equality).
 package main
 
